@@ -100,7 +100,9 @@
 (*    False; the last occurrence of an option counts; an unknown option, a *)
 (*    positional argument or an option without its value ends with a       *)
 (*    non-zero status and -h / --help with status 0, template_input not    *)
-(*    called.  Option abbreviations and -d=FILE are left open.             *)
+(*    called.  Left open: option abbreviations, -d=FILE, a bare "--",      *)
+(*    letters glued behind a value option, and which wins when -h stands   *)
+(*    on a command line that is also wrong.  A lone "-" is a word.         *)
 (*                                                                         *)
 (* Values: text as sequences of one-character strings, exact rationals     *)
 (* (Rat), decimal numbers as [m, e] = m * 10^e (TLC integers are 32-bit).  *)
